@@ -107,6 +107,12 @@ class NpProxy:
             return x
         return np.nan_to_num(x, *a, **k)
 
+    def count_nonzero(self, x, *a, **k):
+        """`np.count_nonzero` of a symbolic array asks each entry whether it is zero (recorded as path conditions)"""
+        if isinstance(x, np.ndarray) and x.dtype == object:
+            return sum(0 if (e == 0) else 1 for e in x.reshape(-1))
+        return np.count_nonzero(x, *a, **k)
+
     trace_hook = None
 
     def trace(self, x, *a, **k):
@@ -1270,3 +1276,96 @@ def gen_dispatch():
              "def facts : List (String × String) := [%s]" % ", ".join('("%s", "%s")' % f for f in facts),
              "end LapyVerif.Gen.Dispatch", ""]
     return [write_if_changed(os.path.join(GEN_DIR, "Dispatch.lean"), "\n".join(lines))]
+
+
+def gen_tet_orient():
+    """`TetMesh.orient_` and `TetMesh.is_oriented` traced on two tetrahedra sharing a face, the first positively and the second negatively
+    oriented at the concolic sample: the volumes the code compares with 0, the decisions, the rewritten element array and the count"""
+    import lapy.tet_mesh as TT
+    sample = {}
+    p = np.array([[0.0, 0.0, 0.0], [1.0, 0.0, 0.1], [0.1, 1.0, 0.0], [0.2, 0.1, 1.0], [0.9, 0.8, 0.7]])
+    for i in range(5):
+        for c in range(3):
+            sample["v%d_%d" % (i, c)] = float(p[i, c])
+    t_in = np.array([[0, 1, 2, 3], [1, 3, 2, 4]])
+    names = v3_names("v", 5)
+    g = GenModule("TetOrient", "lapy/tet_mesh.py::TetMesh.orient_ / is_oriented on the tetrahedra [[0,1,2,3],[1,3,2,4]] (first positive, second negative "
+                  "at the sample point)", "(v0 v1 v2 v3 v4 : V3 ℝ)")
+    # --- orient_
+    tr = Tracer(sample=sample)
+    v = sym_array(tr, "v", (5, 3))
+    with core_quiet():
+        m = TT.TetMesh(v, t_in.copy())
+        n = m.orient_()
+        t_out = np.array(m.t)
+    g.pc(tr, names, nm="pcOrient")
+    # the two volumes `orient_` compared with zero, in element order
+    vols = [a for (rel, a, b, ans) in tr.pc if rel == "lt"]
+    seen = []
+    for a in vols:
+        if a not in seen:
+            seen.append(a)
+    for k, a in enumerate(seen[:2]):
+        g.scalar("vol%d" % k, tr, a, names)
+    g.raw("def orientResult : List (Nat × Nat × Nat × Nat) := [%s]" % ", ".join("(%d, %d, %d, %d)" % tuple(int(x) for x in r) for r in t_out))
+    g.raw("def orientCount : Nat := %d\n" % int(n))
+    # --- is_oriented before / after, and on an all-negative pair
+    res = []
+    for tag, tt in (("mixed", t_in), ("oriented", t_out), ("allneg", np.array([[0, 2, 1, 3], [1, 3, 2, 4]]))):
+        tr2 = Tracer(sample=sample)
+        v2 = sym_array(tr2, "v", (5, 3))
+        with core_quiet(), np_proxied(TT, tr2):
+            r = bool(TT.TetMesh(v2, np.array(tt)).is_oriented())
+        res.append((tag, r, len(emit_pc(tr2, names))))
+    g.raw("def isOrientedFacts : List (String × Bool) := [%s]\n" % ", ".join('("%s", %s)' % (a, "true" if b else "false") for a, b, _ in res))
+    return [g.write()]
+
+
+def gen_tri_orient():
+    """`TriaMesh.orient_` traced on the tetrahedron boundary with symbolic vertices: (A) all triangles reversed — the flood changes nothing,
+    the enclosed volume is negative at the sample point and everything is flipped; (B) one triangle reversed — the flood repairs it, the volume
+    is positive.  The only data-dependent decision is the sign of the volume."""
+    import lapy.tria_mesh as TM
+    p = np.array([[0.0, 0.0, 0.0], [1.0, 0.0, 0.1], [0.1, 1.0, 0.0], [0.2, 0.1, 1.0]])
+    sample = {"v%d_%d" % (i, c): float(p[i, c]) for i in range(4) for c in range(3)}
+    names = v3_names("v", 4)
+    t4 = np.array(T4)
+    with core_quiet():
+        outward = TM.TriaMesh(p, t4).volume() > 0
+    base = t4 if outward else t4[:, [0, 2, 1]]
+    tB = base.copy()
+    tB[2] = tB[2][[1, 0, 2]]
+    g = GenModule("TriOrient", "lapy/tria_mesh.py::TriaMesh.orient_ on the tetrahedron boundary (A: inside-out, B: one triangle reversed)", "(v0 v1 v2 v3 : V3 ℝ)")
+    for tag, tin in (("A", base[:, [0, 2, 1]]), ("B", tB)):
+        tr = Tracer(sample=sample)
+        v = sym_array(tr, "v", (4, 3))
+        with core_quiet():
+            m = TM.TriaMesh(v, np.array(tin))
+            with np_proxied(TM, tr):
+                n = m.orient_()
+        g.pc(tr, names, nm="pc" + tag)
+        vols = [a for (rel, a, b, ans) in tr.pc if rel == "lt"]
+        g.scalar("vol" + tag, tr, vols[0], names)
+        g.raw("def input%s : List (Nat × Nat × Nat) := [%s]" % (tag, ", ".join("(%d, %d, %d)" % tuple(int(x) for x in r) for r in tin)))
+        g.raw("def result%s : List (Nat × Nat × Nat) := [%s]" % (tag, ", ".join("(%d, %d, %d)" % tuple(int(x) for x in r) for r in np.array(m.t))))
+        g.raw("def count%s : Nat := %d\n" % (tag, int(n)))
+    return [g.write()]
+
+
+def gen_refine():
+    """`TriaMesh.refine_` traced on the tetrahedron boundary with symbolic vertices: new vertex coordinates (edge midpoints, as expressions)
+    and the new triangle array (concrete indices)"""
+    import lapy.tria_mesh as TM
+    tr = Tracer()
+    v = sym_array(tr, "v", (4, 3))
+    names = v3_names("v", 4)
+    with core_quiet():
+        m = TM.TriaMesh(v, np.array(T4))
+        with np_proxied(TM, tr):
+            m.refine_(1)
+    g = GenModule("RefineTri", "lapy/tria_mesh.py::TriaMesh.refine_(1) on the tetrahedron boundary [[0,1,2],[0,3,1],[0,2,3],[1,3,2]]", "(v0 v1 v2 v3 : V3 ℝ)")
+    g.pc(tr, names)
+    g.vec("verts", tr, flat_syms(tr, m.v), names)
+    g.raw("def nVerts : Nat := %d" % len(m.v))
+    g.raw("def trias : List (Nat × Nat × Nat) := [%s]\n" % ", ".join("(%d, %d, %d)" % tuple(int(x) for x in r) for r in np.array(m.t)))
+    return [g.write()]
